@@ -24,6 +24,9 @@ DEFAULT_BUDGET = {
     "signal": 0,
     "retention": 0,
     "redeliver": 0,  # re-push of an already processed message (dup delivery by the transport)
+    "pause": 0,  # operator pause (store.pause)
+    "unpause": 0,  # operator resume (Orchestrator.unpause), only after the pause
+    "oprestart": 0,  # operator restart of a completed stage (Orchestrator.restart)
 }
 
 
@@ -170,6 +173,16 @@ class Explorer:
             idx = len(self.signal_spec) - b["signal"]
             spec = self.signal_spec[idx]
             acts.append((f"signal:{spec['stage']}:{'p' if spec['persistent'] else 't'}", idx))
+        if b["pause"] > 0 and v.wf["status"] != "NOT_STARTED":
+            # operator pause of a started workflow, also of one that has meanwhile finished (stale operator view);
+            # pausing a never-started workflow is sanctioned by the repository's own tests and not explored
+            acts.append(("pause", None))
+        if b["unpause"] > 0 and b["pause"] == 0 and self.budget0["pause"] > 0:
+            acts.append(("unpause", None))
+        if b["oprestart"] > 0:
+            for lab_, s in v.stages.items():
+                if not s["synthetic"] and s["status"] in ("SUCCEEDED", "TERMINAL", "FAILED_CONTINUE", "CANCELED", "STOPPED", "SKIPPED"):
+                    acts.append(("oprestart:" + lab_, lab_))
         if b["spurious"] > 0 and nonq:
             for lab_, s in v.stages.items():
                 if not s["synthetic"]:
@@ -242,6 +255,15 @@ class Explorer:
 
             send_signal(w.queue, st.view.exec_id, st.view.stage_ids[spec["stage"]], spec.get("name", "go"),
                         spec.get("data", {"n": arg}), persistent=spec["persistent"])
+        elif kind == "pause":
+            b["pause"] -= 1
+            w.store.pause(st.view.exec_id, "verif")
+        elif kind == "unpause":
+            b["unpause"] -= 1
+            w.orchestrator.unpause(w.store.retrieve(st.view.exec_id))
+        elif kind == "oprestart":
+            b["oprestart"] -= 1
+            w.orchestrator.restart(w.store.retrieve(st.view.exec_id), st.view.stage_ids[arg])
         elif kind == "spurious":
             b["spurious"] -= 1
             from stabilize.queue.messages import StartStage
